@@ -414,6 +414,7 @@ def _artefacts_eval(db, chk, m, fields):
         return s_.split("/")[-1] if isinstance(s_, str) else None
     plain = lambda kw: {k: v for k, v in kw.items() if isinstance(v, (str, bool, int)) or v is None}
     ev = []
+    extract_members = []          # (method, members argument) of every extraction call of the restore run
 
     def hook_s(I, name, pos, kw, node):
         last = name.split(".")[-1]
@@ -491,8 +492,12 @@ def _artefacts_eval(db, chk, m, fields):
             return Obj("zipfile")
         if last == "namelist":
             return [f"o/run1/{names_w['trace_csv']}", f"o/run1/{names_w['graph_pkl']}", f"o/run1/{names_w['data_pkl']}"]
+        if last == "infolist":
+            return [Obj("zipinfo", attrs={"filename": f"o/run1/{names_w[k_]}", "file_size": T.P(f"SIZE_{k_}")}) for k_ in ("trace_csv", "graph_pkl", "data_pkl")]
         if last in ("extractall", "extract"):
+            mem = kw.get("members", pos[1] if last == "extractall" and len(pos) > 1 else None) if last == "extractall" else kw.get("member", pos[0] if pos else None)
             ev.append(("extract", len(I.run.path)))
+            extract_members.append((last, mem))
             return None
         if name == "open":
             return Obj("file", attrs={"path": pos[0], "mode": pos[1] if len(pos) > 1 else kw.get("mode", "r")})
@@ -511,10 +516,36 @@ def _artefacts_eval(db, chk, m, fields):
         if name == "CPGraph" or (name == "cls" and I.stack and I.stack[-1].qualname.startswith("CPGraph.")):          # (also cls(...) inside a classmethod of CPGraph)
             ev.append(("ctor", [to_term(p_) for p_ in pos], {k: to_term(v) for k, v in kw.items()}))
             return Obj("RESTORED", cls=(m, "CPGraph"))
-        if name.startswith("os.path.exists") or last in ("exists", "is_dir", "isdir"):
-            return False          # (a directory left over from an earlier restore must not change what is read)
+        if name.startswith("os.path.exists") or last in ("exists", "is_dir", "isdir", "isfile", "is_file"):
+            return disk_full[0]          # (files left over from an earlier restore must not change what is read: both disk states are run)
+        if last == "getsize" and disk_full[0]:
+            b_ = base(pos[0]) if pos else None
+            k_ = next((k for k in ("trace_csv", "graph_pkl", "data_pkl") if names_w.get(k) == b_), None)
+            return T.P(f"SIZE_{k_}") if k_ else NotImplemented          # ... of the same sizes as the members of the archive being restored
         return NotImplemented
     rp = H.param_names(rest_f)
+    disk_full = [True]
+    # second disk state first: an earlier extraction of a like-named archive is still there (every file exists, with the sizes of the new members)
+    try:
+        runs_full = [r for r in Interp(db, call_hook=hook_r).explore(f"{CP}:restore_cpgraph", lambda I: {rp[0]: "/x/run1.zip", rp[1]: Obj("t_full"), rp[2]: T.P("RANK")}) if r.raised is None]
+    except AnalysisError:
+        runs_full = []
+    ext_full = list(extract_members)
+    if runs_full and len(ext_full) == len(runs_full):          # (one extraction on every explored path; alternatives are the handlers of exceptions the disk tests might raise)
+        verdicts = []
+        for how, mem in ext_full:
+            full = how == "extractall" and (mem is None or (isinstance(mem, list) and len(mem) == 3 and all(isinstance(x_, (str, Obj)) for x_ in mem)))
+            empty = isinstance(mem, list) and len(mem) < 3
+            verdicts.append(True if full else (False if (empty or how == "extract") else None))
+        how, mem = next(((h_, m_) for (h_, m_), v_ in zip(ext_full, verdicts) if v_ is not True), ext_full[0])
+        ob("with the files of an earlier extraction still on disk (same names, same sizes) restore still extracts EVERY member of the archive", False if False in verdicts else (None if None in verdicts else True), m.loc(rest_f),
+           found={"call": how, "members": "all" if mem is None else (f"list of {len(mem)}" if isinstance(mem, list) else T.show(to_term(mem))[:200]), "paths": len(runs_full)}, accepted="extractall(path) / extractall(path, members=<the full listing>)",
+           why="members left out because a like-named (or like-sized) file is already on disk are read from an EARLIER save under the same name: the second cycle restores the first graph")
+    elif runs_full:
+        ob("with the files of an earlier extraction still on disk restore runs on one path with one extraction", None, m.loc(rest_f), found={"paths": len(runs_full), "extractions": len(ext_full)})
+    del ev[:]
+    del extract_members[:]
+    disk_full[0] = False
     try:
         runs_r = [r for r in Interp(db, call_hook=hook_r).explore(f"{CP}:restore_cpgraph", lambda I: {rp[0]: "/x/run1.zip", rp[1]: Obj("t_full"), rp[2]: T.P("RANK")}) if r.raised is None]
     except AnalysisError:
@@ -528,6 +559,14 @@ def _artefacts_eval(db, chk, m, fields):
     ext = [i_ for i_, k in enumerate(kinds) if k == "extract"]
     ob("restore extracts the given archive unconditionally before it reads an artefact", len(ext) == 1 and first_read is not None and ext[0] < first_read and ev_r[ext[0]][1] == 0 and not runs_r[0].path, m.loc(rest_f),
        found=kinds, accepted="ZipFile(zip).extractall(..) first, under no condition", why="skipping extraction when the directory already exists restores the files of an earlier archive saved under the same name")
+    # ... and extracts ALL of it: extractall() without a member selection (or with the archive's own full listing)
+    if len(ext) == 1 and len(extract_members) == 1:
+        how, mem = extract_members[0]
+        full = how == "extractall" and (mem is None or (isinstance(mem, list) and len(mem) == 3 and all(isinstance(x_, (str, Obj)) for x_ in mem)))
+        understood_subset = how == "extract" or not full          # one member, or a selection computed from the listing (what is on disk already, a name test, ...)
+        ob("restore extracts EVERY member of the archive (no selection of members)", True if full else (False if understood_subset else None), m.loc(rest_f),
+           found={"call": how, "members": "all" if mem is None else (T.show(to_term(mem))[:200] if not isinstance(mem, list) else f"list of {len(mem)}")}, accepted="extractall(path) / extractall(path, members=<the full listing>)",
+           why="members left out because a like-named (or like-sized) file is already on disk are read from an EARLIER save under the same name: the second cycle restores the first graph")
     reads = {"trace_csv": [e[1] for e in ev_r if e[0] == "csv-read"], "pickles": [(e[1], e[2]) for e in ev_r if e[0] == "load"]}
     ob("each artefact is read under the name it was written with (pickles opened for binary reading)",
        reads["trace_csv"] == [names_w["trace_csv"]] and sorted(reads["pickles"]) == sorted([(names_w["graph_pkl"], "rb"), (names_w["data_pkl"], "rb")]), m.loc(rest_f),
